@@ -1,24 +1,16 @@
 import KavaVerif.Props.C12
+#print axioms KV.Liquid.C12_live_configuration
 #print axioms KV.Liquid.exSlashed_wf
-#print axioms KV.Liquid.C12_backed_counterexample
-#print axioms KV.Liquid.C12_backed_partial
-#print axioms KV.Liquid.C12_backed_fixed
+#print axioms KV.Liquid.C12_backed
 #print axioms KV.Liquid.C12_burn_keeps_margin
-#print axioms KV.Liquid.C12_no_empty_delegation_counterexample
-#print axioms KV.Liquid.C12_no_empty_delegation_partial
-#print axioms KV.Liquid.C12_no_empty_delegation_fixed
+#print axioms KV.Liquid.C12_no_empty_delegation
 #print axioms KV.Liquid.C12_bonded_tokens_unchanged
 #print axioms KV.Liquid.C12_no_unbonding_entry
 #print axioms KV.Liquid.C12_guards
-#print axioms KV.Liquid.C12_value_within_two_units_counterexample
-#print axioms KV.Liquid.C12_value_counterexample_state_ok
-#print axioms KV.Liquid.C12_value_within_two_units_partial
-#print axioms KV.Liquid.C12_value_within_two_units_burn
-#print axioms KV.Liquid.C12_value_within_two_units_fixed
+#print axioms KV.Liquid.C12_value_within_two_units
+#print axioms KV.Liquid.exWhale_ok
+#print axioms KV.Liquid.C12_value_unchanged_at_rate_one
 #print axioms KV.Liquid.exT_ok
-#print axioms KV.Liquid.C12_tally_le_bonded_counterexample
-#print axioms KV.Liquid.C12_tally_le_bonded_partial
-#print axioms KV.Liquid.C12_tally_le_bonded_fixed
+#print axioms KV.Liquid.C12_tally_le_bonded
 #print axioms KV.Liquid.C12_tally_counts_once
-#print axioms KV.Liquid.C12_tally_no_panic_counterexample
-#print axioms KV.Liquid.C12_tally_no_panic_fixed
+#print axioms KV.Liquid.C12_tally_no_panic
